@@ -12,7 +12,7 @@ Case shapes (bytes are hex strings):
   {"k":"frames","kind":K,"lim":L,"end":"eof","msgs":[[lay, v, body],...],"cut":null|n,"parts":[sizes],"pace":0|1}
   {"k":"raw","kind":K,"lim":L,"end":"eof","chunks":[hex,...],"pace":0|1}
 """
-import asyncio, io, json, logging, os, signal, threading, time
+import asyncio, io, json, logging, os, signal, sys, threading, time
 from concurrent.futures import ThreadPoolExecutor
 import core
 import priv
@@ -30,6 +30,116 @@ _orig_loads = json.loads
 
 class HarnessTimeout(BaseException):
     pass
+
+
+# ------------------------------------------------------------------ a check must never hang
+# Every run of library code that can loop or block gets a hard deadline.  A run that does not come
+# back is the observation "hang" (S is violated: the call must return); after the first hang in this
+# process the deadline of the following cases shrinks, after three hangs in one batch the rest of the
+# batch is not run.  Code that cannot be interrupted from the main thread (threads blocked on a lock,
+# executor threads joined at interpreter exit) runs in a forked child that the parent kills.
+HANGS = 0
+CASE_DEADLINE, CASE_DEADLINE_AFTER_HANG, MAX_HANGS = 10.0, 3.0, 3
+
+
+def case_deadline(extra=0.0):
+    return (CASE_DEADLINE_AFTER_HANG if HANGS else CASE_DEADLINE) + extra
+
+
+def note_hang():
+    global HANGS
+    HANGS += 1
+
+
+class alarm:
+    """with alarm(seconds): ... raises HarnessTimeout in the main thread when the time is up."""
+    def __init__(self, seconds):
+        self.seconds = seconds
+
+    def __enter__(self):
+        def on_alarm(signum, frame):
+            raise HarnessTimeout()
+        self.old = signal.signal(signal.SIGALRM, on_alarm)
+        signal.setitimer(signal.ITIMER_REAL, self.seconds)
+
+    def __exit__(self, *a):
+        signal.setitimer(signal.ITIMER_REAL, 0)
+        signal.signal(signal.SIGALRM, self.old)
+        return False
+
+
+def run_isolated(fn, chk, idle_deadline=20.0, total_deadline=600.0):
+    """Run fn(chk) -> (violations, n) in a forked child; the child reports the case it is about to run
+    through chk.progress(desc).  Returns (violations, n, hung) where hung is None or the description of
+    the case during which the child stopped making progress (the child is then killed)."""
+    import select
+    r, w = os.pipe()
+    sys.stdout.flush(); sys.stderr.flush()
+    pid = os.fork()
+    if pid == 0:
+        code = 0
+        try:
+            os.close(r)
+            out = os.fdopen(w, "w", buffering=1)
+            chk.progress = lambda desc: out.write(json.dumps({"start": desc}) + "\n")
+            v, n = fn(chk)
+            out.write(json.dumps({"done": [v, n]}) + "\n")
+            out.flush()
+        except BaseException as e:      # noqa
+            try:
+                out.write(json.dumps({"crash": type(e).__name__ + ": " + str(e)[:300]}) + "\n")
+                out.flush()
+            except Exception:
+                pass
+            code = 1
+        finally:
+            os._exit(code)               # no atexit handlers: a stuck executor thread must not keep us
+    os.close(w)
+    buf, last, result, crash = b"", None, None, None
+    t_end, t_idle = time.time() + total_deadline, time.time() + idle_deadline
+    try:
+        while result is None and crash is None:
+            now = time.time()
+            if now > t_end or now > t_idle:
+                break
+            rl, _, _ = select.select([r], [], [], min(t_end, t_idle) - now)
+            if not rl:
+                continue
+            data = os.read(r, 65536)
+            if not data:
+                break
+            buf += data
+            while b"\n" in buf:
+                line, buf = buf.split(b"\n", 1)
+                try:
+                    m = json.loads(line)
+                except ValueError:
+                    continue
+                t_idle = time.time() + idle_deadline
+                if "start" in m:
+                    last = m["start"]
+                elif "done" in m:
+                    result = m["done"]
+                elif "crash" in m:
+                    crash = m["crash"]
+    finally:
+        os.close(r)
+        try:
+            os.kill(pid, signal.SIGKILL)
+        except OSError:
+            pass
+        try:
+            os.waitpid(pid, 0)
+        except OSError:
+            pass
+    if result is not None:
+        return result[0], result[1], None
+    if crash is not None:
+        return [{"case": last, "impl": {"harness": "crash in isolated check: " + crash}, "S": None,
+                 "verdict": "violation", "suffix": "no-failing-input-found"}], 0, None
+    note_hang()
+    return [{"case": last, "impl": {"ret": "hang: the call did not return within the deadline; child killed"},
+             "S": {"ret": "returns"}, "verdict": "violation"}], 0, last
 
 
 def H(b):
@@ -81,28 +191,47 @@ class StubProtocol:
         self.log.append(("handle", message))
 
 
+_orig_decode = json.JSONDecoder.decode
+
+
 class Observer:
-    """Patches json.loads (module attribute: io_ calls json.loads at run time) to record the exact
-    body bytes of every call that carries our stub's object_hook."""
+    """Records the exact body of every parse that carries our stub's object_hook: at json.loads
+    (module attribute: io_ calls json.loads at run time; the bytes as read) and, for code that builds
+    its own json.JSONDecoder(object_hook=...), at JSONDecoder.decode (the text, re-encoded)."""
     def __init__(self):
         self.log = []
         self.proto = StubProtocol(self.log)
+        self.in_loads = False
 
     def loads(self, s, *a, **kw):
         hook = kw.get("object_hook")
-        if getattr(hook, "__self__", None) is self.proto:
-            self.log.append(("loads", bytes(s)))
-        return _orig_loads(s, *a, **kw)
+        if getattr(hook, "__self__", None) is not self.proto:
+            return _orig_loads(s, *a, **kw)
+        self.log.append(("loads", bytes(s) if not isinstance(s, str) else s.encode("utf-8", "surrogatepass")))
+        self.in_loads = True
+        try:
+            return _orig_loads(s, *a, **kw)
+        finally:
+            self.in_loads = False
+
+    def decode(self, dec, s, *a, **kw):
+        hook = getattr(dec, "object_hook", None)
+        if getattr(hook, "__self__", None) is self.proto and not self.in_loads:
+            self.log.append(("loads", s.encode("utf-8", "surrogatepass") if isinstance(s, str) else bytes(s)))
+        return _orig_decode(dec, s, *a, **kw)
 
     def error_handler(self, exc, source):
         self.log.append(("error", type(exc).__name__))
 
     def __enter__(self):
         json.loads = self.loads
+        ob = self
+        json.JSONDecoder.decode = lambda dec, s, *a, **kw: ob.decode(dec, s, *a, **kw)
         return self
 
     def __exit__(self, *a):
         json.loads = _orig_loads
+        json.JSONDecoder.decode = _orig_decode
 
     def observation(self, term):
         bodies, dispatch = [], "ok"
@@ -117,6 +246,12 @@ class Observer:
         i = 0
         while i < len(log):
             t, x = log[i]
+            if t == "error":
+                # a body that was reported without reaching a parser we can see (e.g. it failed to decode
+                # first): counted, content unknown ("?" matches any one body)
+                bodies.append(None)
+                i += 1
+                continue
             if t != "loads":
                 dispatch = "unexpected-" + t
                 i += 1
@@ -132,8 +267,12 @@ class Observer:
             elif want[0] == "handle" and canon_json(nxt[1]) != canon_json(want[1]):
                 dispatch = "body-%d-handled-differently" % (len(bodies) - 1)
             i += 2 if nxt[0] in ("handle", "error") else 1
-        return {"bodies": [H(b) for b in bodies], "term": term, "dispatch": dispatch,
+        return {"bodies": ["?" if b is None else H(b) for b in bodies], "term": term, "dispatch": dispatch,
                 "nhandled": sum(1 for t, _ in log if t == "handle")}
+
+
+def bodies_match(got, want):
+    return len(got) == len(want) and all(g == w or g == "?" for g, w in zip(got, want))
 
 
 def canon_json(x):
@@ -681,25 +820,27 @@ class C02(core.Property):
         from pygls import io_
         out = []
 
-        def on_alarm(signum, frame):
-            raise HarnessTimeout()
-        old = signal.signal(signal.SIGALRM, on_alarm)
+        hangs = 0
         try:
             for c in cases:
+                if hangs >= MAX_HANGS:
+                    out.append({"bodies": [], "term": "not-run-after-%d-hangs" % MAX_HANGS, "dispatch": "ok", "nhandled": 0})
+                    continue
                 try:
-                    signal.setitimer(signal.ITIMER_REAL, 30)
-                    _, chunks = case_stream(c)
-                    out.append(drive(io_, c["kind"], c.get("lim", DEFAULT_LIMIT), chunks, c.get("end", "eof"),
-                                     c.get("pace", 0), c.get("rd", "pipe"), c.get("gaps", 0), c.get("real_gap", 0.0)))
+                    with alarm(case_deadline(3 * c.get("real_gap", 0.0))):
+                        _, chunks = case_stream(c)
+                        out.append(drive(io_, c["kind"], c.get("lim", DEFAULT_LIMIT), chunks, c.get("end", "eof"),
+                                         c.get("pace", 0), c.get("rd", "pipe"), c.get("gaps", 0), c.get("real_gap", 0.0)))
                 except HarnessTimeout:
+                    # the read loop does not end (S: the call returns)
+                    hangs += 1
+                    note_hang()
                     out.append({"bodies": [], "term": "hang", "dispatch": "ok", "nhandled": 0})
                 except Exception as ex:
                     out.append(["raise", type(ex).__name__])
-                finally:
-                    signal.setitimer(signal.ITIMER_REAL, 0)
         finally:
-            signal.signal(signal.SIGALRM, old)
             json.loads = _orig_loads
+            json.JSONDecoder.decode = _orig_decode
         return out
 
     # ---------------- model ----------------
@@ -746,11 +887,11 @@ class C02(core.Property):
     def satisfies(self, c, impl, S):
         if not isinstance(impl, dict):
             return False
-        return (impl["bodies"] == S["bodies"] and impl["dispatch"] == S["dispatch"]
+        return (bodies_match(impl["bodies"], S["bodies"]) and impl["dispatch"] == S["dispatch"]
                 and (S["term"] is None or impl["term"] == S["term"]))
 
     def same(self, c, impl, M):
-        return (isinstance(impl, dict) and impl["bodies"] == M["bodies"] and impl["term"] == M["term"]
+        return (isinstance(impl, dict) and bodies_match(impl["bodies"], M["bodies"]) and impl["term"] == M["term"]
                 and impl["dispatch"] == M["dispatch"])
 
     def nontrivial(self, c):
@@ -832,8 +973,9 @@ class C02(core.Property):
             # the loops reached through the real entry points (start_io / its sync variant / start_tcp / client)
             import c02_entry
             t0 = time.time()
-            v, n = c02_entry.check(chk)
-            self.extra_coverage["entry_points"] = {"cases": n, "violations": len(v), "wall_s": round(time.time() - t0, 2),
+            v, n, hung = run_isolated(c02_entry.check, chk)
+            self.extra_coverage["entry_points"] = {"cases": n, "violations": len(v), "hung_in": hung,
+                                                   "wall_s": round(time.time() - t0, 2),
                                                    "entries": list(c02_entry.ENTRY_POINTS)}
             if v:
                 return v[:3]
